@@ -103,11 +103,12 @@ class Verifier:
             if p not in params:
                 raise Unsupported(f"contract of {c.target} does not type parameter {p}")
         for gname, gty in c.ghost.get("vars", {}).items():
-            gv = self.make_value(I, gty, gname) if not gty.startswith("empty:") else None
-            if gv is None:
+            if gty.startswith("empty:"):
                 from .core import slist_of
 
                 gv = slist_of(I.ctx, [], parse_ty(gty[6:]).elem)
+            else:
+                gv = self.make_value(I, gty, gname)
             I.ghost[gname] = gv
         for gname in self.contract_globals(c.target):
             self.global_value(I, gname)
@@ -271,7 +272,8 @@ class Verifier:
         # an invariant / safety / call-site obligation supports every tagged clause of the contract
         from .contract import contract_props
 
-        return contract_props(self.c)
+        extra = set(self.c.ghost.get("props", []))
+        return [p for p in contract_props(self.c) if p not in extra or p in self.c.safety_props]
 
     def add_obligation(self, I: Interp, kind, label, goal, props=None, where="", using=None):
         if isinstance(goal, bool):
@@ -621,7 +623,11 @@ class Verifier:
     def none_const(self, ty):
         return z3.Const(f"None_{ty.key}", sort_of(ty))
 
+    NULLABLE = {"Node", "Val"}
+
     def abs_is_none(self, I, sv):
+        if sv.ty.key not in self.NULLABLE:
+            return False
         return SV(z3.simplify(sv.t == self.none_const(sv.ty)), BOOL)
 
     def abs_attr(self, I, sv, attr, node):
